@@ -831,5 +831,17 @@ class World:
         top = float(api("query", sk.query, b"x"))
         return {"raised": None, "top": top, "base": float(sk.base), "max_count": ev["max_count"], "nr": ev["nr"]}
 
+    def op_set_records(self, ev):
+        """n_added_records[1] is the documented records counter that helpers.parallel_add
+        maintains from outside; histories set it the same way."""
+        n = self._node(ev)
+        if n is None or self.fam not in COUNTING:
+            return None
+        sk = self.party(n, ev.get("via", 0))
+        sk.n_added_records[1] = np.uint64(ev["n"])
+        if n.shadow is not None:
+            n.shadow.n_added_records[1] = np.uint64(ev["n"])
+        return {"node": ev["node"]}
+
     def op_noop(self, ev):
         return None
